@@ -232,13 +232,16 @@ func (state inSession) resendMessages(session *session, beginSeqNo, endSeqNo int
 
 	// resendMutex must always be locked before sendMutex to prevent a potential deadlock
 	// sendMutex is locked below in session.EnqueueBytesAndSend()
+	verifPoint("resend.enter")
 	session.resendMutex.Lock()
 	defer session.resendMutex.Unlock()
+	verifPoint("resend.locked")
 
 	seqNum := beginSeqNo
 	nextSeqNum := seqNum
 	msg := NewMessage()
 	err := session.store.IterateMessages(beginSeqNo, endSeqNo, func(msgBytes []byte) error {
+		verifPoint("resend.between")
 		err := ParseMessageWithDataDictionary(msg, bytes.NewBuffer(msgBytes), session.transportDataDictionary, session.appDataDictionary)
 		if err != nil {
 			session.log.OnEventf("Resend Msg Parse Error: %v, %v", err.Error(), bytes.NewBuffer(msgBytes).String())
